@@ -78,7 +78,8 @@ class LaTeXRenderer(BaseRenderer):
         return self.render_inner(token)
 
     def render_raw_text(self, token, escape=True):
-        return (token.content.replace('$', '\\$').replace('#', '\\#')
+        return (token.content.replace('\\', '\\textbackslash ')
+                             .replace('$', '\\$').replace('#', '\\#')
                              .replace('{', '\\{').replace('}', '\\}')
                              .replace('&', '\\&').replace('_', '\\_')
                              .replace('%', '\\%').replace('^', '\\^{}')
